@@ -218,8 +218,13 @@ bool ExternalCommand::isResultValid(BuildSystem& system,
 void ExternalCommand::start(BuildSystem& system,
                             core::TaskInterface ti) {
   // Initialize the build state.
+  //
+  // The command object outlives a build when the build system is reused, so
+  // everything derived from a particular build's values has to start over.
   skipValue = llvm::None;
   missingInputKeys.clear();
+  canUpdateIfNewer = true;
+  hasPriorResult = false;
 
   // Request all of the inputs.
   unsigned id = 0;
